@@ -169,6 +169,10 @@ fn gen_polyline_path(rng: &mut Rng, w: i32, h: i32, curves: bool, min_seg: f64) 
         ops.push(PathOp::MoveTo(Point::new(pts[0].x as f32, pts[0].y as f32)));
         for i in 1..pts.len() {
             let p = Point::new(pts[i].x as f32, pts[i].y as f32);
+            // a repeated vertex (zero-length segment) changes nothing
+            if rng.chance(0.05) {
+                ops.push(PathOp::LineTo(Point::new(pts[i - 1].x as f32, pts[i - 1].y as f32)));
+            }
             if curves && rng.chance(0.5) {
                 let c = Point::new(rng.range(-2., wf + 2.) as f32, rng.range(-2., hf + 2.) as f32);
                 if rng.chance(0.5) {
